@@ -2,5 +2,6 @@ SPECIFICATION Spec
 CONSTANTS Tier = "quick"
           Depth = 2
 PROPERTY AreaLaws
+PROPERTY CorrLaws
 INVARIANT ZonoAgrees
 CHECK_DEADLOCK FALSE
